@@ -128,6 +128,12 @@ def _work(args):
     with open(path, 'w') as fh:
         for tid0, names, data, sweep in jobs:
             shape = '+'.join(names)
+            if names[0] == 'LONG':
+                for ln in F.run_long(int(names[1]), names[2], tid0, seed):
+                    fh.write(json.dumps(ln, separators=(',', ':')) + '\n')
+                nruns += 1
+                kinds['long-' + names[2]] = kinds.get('long-' + names[2], 0) + 1
+                continue
             if sweep:
                 plans = [('whole', [])] + ([('1cut', [17]), ('1cut', [18])] if len(data) >= 19 else [])
                 if names[0] == 'MINLEN':
@@ -188,6 +194,11 @@ def run(prop, tier, seed):
         for names, data in sw:
             jobs.append((tid, names, data, True))
             tid += 10
+        # long runs of well-formed messages on one connection (tens of thousands of UPDATEs), three ways of cutting them
+        for n in ([12000, 20011] if tier == 'quick' else [12000, 20011, 70000, 131075]):
+            for seg in ('permsg', '64k', 'random'):
+                jobs.insert(0, (tid, ('LONG', str(n), seg), None, True))
+                tid += 10
         procs = 16
         chunks = [jobs[i::procs * 4] for i in range(procs * 4)]
         with mp.get_context('fork').Pool(procs) as pool:
@@ -211,8 +222,8 @@ def run(prop, tier, seed):
             sig = {'shape': r['pst'], 'cut': r['cls']}
             ls = lines_by_tid.get(r['tid'], [])
             payload = {'property': PROP, 'kind': 'framing', 'clause': r['clause'], 'signature': sig, 'extra': r['extra'],
-                       'stream': ls[0]['bytes'] if ls else None,
-                       'cuts': [x['avail'] for x in ls[1:]] if ls else None, 'lines': ls[1:][-4:]}
+                       'stream': ls[0].get('bytes') if ls else None,
+                       'cuts': [x['avail'] for x in ls[1:] if 'avail' in x] if ls else None, 'lines': (ls[1:] or ls)[-4:]}
             v.reject(r['clause'], {'shape': r['pst']}, payload, 'cut=%s trace=%d line=%d extra=%s' % (r['cls'], r['tid'], r['i'], json.dumps(r['extra'])))
         # binding self-test: drop one extracted message from a recorded line -> must be rejected
         st_ok = None
@@ -222,7 +233,7 @@ def run(prop, tier, seed):
                 d = json.loads(line)
                 if d['k'] == 'stream':
                     buf = [d]
-                else:
+                elif d['k'] == 'chunk':
                     buf.append(d)
                     if len(d['ext']) >= 2 and not d['nots']:
                         bad = dict(d)
